@@ -4,6 +4,7 @@ import (
 	"encoding/json"
 	"fmt"
 	"os"
+	"strings"
 
 	"verif/internal/core"
 	"verif/internal/gen"
@@ -152,6 +153,44 @@ func (m c03) Run(c *core.Ctx) {
 				c.Sample(c03case{Src: src})
 			}
 		}
+	}
+	// the call-frame limit reached inside try statements: StackOverflowError is a runtime error like any other, raised by
+	// the call that would exceed the limit in the activation that makes it. The reference interpreter has no frame limit,
+	// so these are judged by laws over counters the script keeps itself: with a catch in every activation each entered
+	// activation but the deepest adds one (result == entries - 1); with a finally in every activation every entered
+	// activation's finally runs exactly once (finallies == entries).
+	for _, fl := range []struct{ name, src string }{
+		{"catch-in-every-activation", "var f\nn := 0\nf = func() {\n  n++\n  try {\n    return f() + 1\n  } catch {\n    return 0\n  }\n}\nr := f()\nreturn [r == n - 1, r, n]"},
+		{"finally-in-every-activation", "var f\nn := 0\nm := 0\nf = func() {\n  n++\n  try {\n    return f() + 1\n  } finally {\n    m++\n  }\n}\nmsg := \"\"\ntry {\n  f()\n} catch e {\n  msg = string(e)\n}\nreturn [m == n && msg != \"\", m, n, msg]"},
+		{"catch-and-finally-alternating", "var f\nn := 0\nm := 0\nf = func() {\n  n++\n  if n % 2 == 0 {\n    try {\n      return f() + 1\n    } catch {\n      return 0\n    } finally {\n      m++\n    }\n  }\n  try {\n    return f() + 1\n  } finally {\n    m++\n  }\n}\nr := f()\nreturn [m == n && r >= 0 && r < n, m, n]"},
+	} {
+		idx++
+		if idx%c.NBatch != c.Batch {
+			continue
+		}
+		fl := fl
+		if !c.Begin(func() string { return "frame-limit law " + fl.name + "\n" + fl.src }) {
+			continue
+		}
+		p := &Program{Src: fl.src, Tags: []string{"frame-limit-law"}}
+		for _, opt := range []int{-1, 0} {
+			cr := compileProgram(p, opt)
+			if cr.err != nil || cr.panicv != "" {
+				c.Inconclusive("frame-limit law script does not compile: " + fl.name)
+				continue
+			}
+			for _, rec := range []bool{true, false} {
+				out := runVM(cr.bc, nil, nil, rec)
+				c.Count("frame_limit_law_runs")
+				if out.Kind == "value" && strings.HasPrefix(out.Value, "[true,") || strings.HasPrefix(out.Value, "[true ") {
+					c.Count("frame_limit_law_held")
+					continue
+				}
+				c.Violation("C03|frame-limit-law|"+fl.name, fmt.Sprintf("StackOverflowError raised inside try statements is not delivered like any other error (%s, optimizer %d, recover %v): %s %s %s", fl.name, opt, rec, out.Kind, trunc(out.Value, 120), trunc(out.ErrMsg, 120)),
+					c02wit{Program: p, Why: fl.name})
+			}
+		}
+		c.Nontrivial("frame-limit-law " + fl.name)
 	}
 	// larger random trees
 	n := c.Pick(1500, 30000)
